@@ -21,7 +21,8 @@
     detection/hmm_detection/__init__.py : HMMDetectionResults.__init__/to_json/from_json,
         regenerate_previous_results (strictness, rule names, fungal multipliers)
     detection/sideloader/data_structures.py : Tool, SubRegionAnnotation, ProtoclusterAnnotation,
-        SideloadedResults (to_json/from_json/__init__ checks/build_location/start/end)
+        SideloadedResults (to_json/from_json/__init__ checks/build_location/start/end);
+        sideloader.regenerate_previous_results (with the D56 repair: requested annotations are compared)
     common/hmmer.py : HmmerHit.__post_init__/to_json/from_json, HmmerResults.to_json/from_json/refilter ;
         detection/{full,cluster}_hmmer regenerate_previous_results
     modules/tta/tta.py : TTAResults.to_json/from_json/new_feature_from_location ; tta.run_on_record
@@ -825,10 +826,22 @@ def fromJson (ctx : Ctx) : J → Outcome Sideloaded
             let protos ← mapO (ProtoAnn.fromJson ctx.origin) pj
             pure ⟨ctx.recordId, subs, protos⟩
   | _ => .refuse .type
-def regenerate (ctx : Ctx) (j : J) : Outcome Sideloaded :=
+/-- `regenerate_previous_results` (with the D56 repair).  `requested` is what
+    `load_single_record_annotations` yields for the current `--sideload*` options, `none` when the
+    current run requests no sideloading (`is_enabled(options)` false): annotations requested for
+    this run must be the ones being reused, otherwise the run stops. -/
+def regenerate (ctx : Ctx) (requested : Option Sideloaded) (j : J) : Outcome Sideloaded :=
   match j with
   | .obj [] => .discard
-  | _ => fromJson ctx j
+  | _ =>
+    match fromJson ctx j with
+    | .reuse x =>
+      match requested with
+      | none => .reuse x
+      | some r =>
+        if r.subregions != x.subregions || r.protoclusters != x.protoclusters then .refuse .runtime
+        else .reuse x
+    | other => other
 /-- `get_predicted_subregions` / `get_predicted_protoclusters`: (location, core, tool, label/product) -/
 def predictedSubregions (x : Sideloaded) : List (Loc × String × String) :=
   x.subregions.map fun s => (s.location, s.tool.name, s.label)
